@@ -24,8 +24,91 @@ ASSUMPTIONS = [
 CASES = {"quick": 6400, "thorough": 120000}
 
 
+@st.composite
+def ssbs_programs(draw):
+    """SsbScript SOURCES written by this harness (not by the repository's decompiler): labels in front of ops, several
+    labels on one op, labels at routine ends and at the very end of the file, a label defined twice, jumps to any of
+    them from any routine, alias routines."""
+    from vf import gen_ssb
+
+    case = draw(gen_ssb.ssbscript_domain())
+    n_extra = draw(st.integers(0, 3))
+    extra = []
+    for k in range(n_extra):
+        r_i = draw(st.integers(0, len(case["routines"]) - 1))
+        at = draw(st.sampled_from(["end", "end", "front", "dup"]))
+        extra.append([r_i, at, draw(st.integers(0, 50))])
+    retarget = draw(st.lists(st.tuples(st.integers(0, 50), st.integers(0, 5)).map(list), max_size=3))
+    return {"ssbs": case, "extra": extra, "retarget": retarget}
+
+
+def ssbs_text(c):
+    from vf import render
+
+    case, extra, retarget = c["ssbs"], c["extra"], c["retarget"]
+    ch = lambda n: 0  # noqa
+    dims = set()
+
+    def val(p):
+        if isinstance(p, int):
+            return str(p)
+        if "c" in p:
+            return p["c"]
+        if "s" in p:
+            return render.spell_string(p["s"], ch, dims, allow_multiline=False)
+        if "l" in p:
+            return "{" + ", ".join(f"{a}={render.spell_string(b, ch, dims, allow_multiline=False)}" for a, b in p["l"]) + "}"
+        if "p" in p:
+            n, xo, yo, x, y = p["p"]
+            return f"Position<'{n}', {x}{'.5' if xo > 1 else ''}, {y}{'.5' if yo > 1 else ''}>"
+        return p["d"]
+
+    jumps = [(ri, oi) for ri, r in enumerate(case["routines"]) for oi, op in enumerate(r["ops"]) if op[2] is not None]
+    extra_names = [f"x{k}" for k in range(len(extra))]
+    override = {}
+    for (j, k) in retarget:
+        if jumps and extra_names:
+            override[jumps[j % len(jumps)]] = extra_names[k % len(extra_names)]
+    before = {}
+    for ri, r in enumerate(case["routines"]):
+        for oi, op in enumerate(r["ops"]):
+            if op[2] is not None:
+                before.setdefault((op[2][0], op[2][1]), []).append(f"l{op[2][0]}_{op[2][1]}")
+    ends = {}
+    for k, (r_i, at, n) in enumerate(extra):
+        ops = case["routines"][r_i]["ops"]
+        if at in ("end", "dup") or not ops:
+            ends.setdefault(r_i, []).append(extra_names[k])
+        if at == "front" and ops:
+            before.setdefault((r_i, n % len(ops)), []).append(extra_names[k])
+        if at == "dup" and ops:
+            before.setdefault((r_i, n % len(ops)), []).append(extra_names[k])  # defined twice
+    out = []
+    for ri, r in enumerate(case["routines"]):
+        if r["type"] == "COROUTINE":
+            head = f"coro {r['name']}"
+        elif r["type"] == "GENERIC":
+            head = f"def {ri}"
+        else:
+            head = f"def {ri} for {r['type'].lower()} {r.get('target_name') or r.get('target')}"
+        out.append(head + " {")
+        if not r["ops"] and not ends.get(ri):
+            out.append("    alias previous;")
+        for oi, (name, params, tgt) in enumerate(r["ops"]):
+            for lab in dict.fromkeys(before.get((ri, oi), [])):
+                out.append(f"    §{lab};" if (oi + ri) % 2 else f"    @{lab};")
+            args = [val(p) for p in params]
+            if tgt is not None:
+                args.append("@" + override.get((ri, oi), f"l{tgt[0]}_{tgt[1]}"))
+            out.append(f"    {name}({', '.join(args)});")
+        for lab in ends.get(ri, []):
+            out.append(f"    @{lab};")
+        out.append("}")
+    return "\n".join(out) + "\n"
+
+
 def strategy(tier):
-    return st.one_of(gen_prog.programs(max_stmts=40), gen_macro.macro_programs(single_file=True))
+    return st.one_of(gen_prog.programs(max_stmts=40), gen_macro.macro_programs(single_file=True), ssbs_programs())
 
 
 def invariant(comp, what, fails, text):
@@ -65,7 +148,29 @@ def invariant(comp, what, fails, text):
     return njump, gaps
 
 
+def evaluate_ssbs(case, stt):
+    fails = []
+    text = ssbs_text(case)
+    stt.count("ssbscript_source")
+    for r_i, at, n in case["extra"]:
+        stt.count("ssbs_label:" + at)
+    for entry, via in (("ssbs_compiler", lambda: compile_ssbs(text)), ("exps_compiler_with_marker", lambda: compile_text("//?: is-ssb-script: true\n" + text))):
+        comp, exc = call_guard(via)
+        if exc is not None:
+            stt.count(f"{entry}:rejected")
+            if not exc[0].startswith("exc:ParseError") and not exc[0].startswith("exc:SsbCompilerError") and not exc[0].startswith("exc:ValueError"):
+                stt.count(f"{entry}:undocumented_exception_(C10)")
+            continue
+        stt.count(f"{entry}:accepted")
+        res = invariant(comp, "ssbs_src", fails, text)
+        if res is not None and res[0]:
+            stt.mark_nontrivial(case)
+    return fails
+
+
 def evaluate(case, stt):
+    if "ssbs" in case:
+        return evaluate_ssbs(case, stt)
     fails = []
     prog = case
     for c in gen_prog.classify(prog):
@@ -106,4 +211,12 @@ def evaluate(case, stt):
 
 
 def shrink_candidates(case):
-    return gen_prog.shrink_candidates(case)
+    if "ssbs" in case:
+        from vf import gen_ssb
+
+        for c in gen_ssb.shrink_candidates(case["ssbs"]):
+            yield dict(case, ssbs=c)
+        for i in range(len(case["extra"])):
+            yield dict(case, extra=case["extra"][:i] + case["extra"][i + 1:])
+        return
+    yield from gen_prog.shrink_candidates(case)
